@@ -503,6 +503,28 @@ func (in *inliner) ifStmt(x *ast.IfStmt) ast.Stmt {
 	}
 	in.funcLits(x.Init)
 	in.funcLits(x.Cond)
+	// if h(a) { … } / if !h(a) { … } with a straight-line h: the statements of h, then the condition h returns, in one
+	// block — so that the condition a rule looks at is the expression itself and not a variable holding its value
+	if x.Init == nil {
+		ce := ast.Unparen(x.Cond)
+		neg := false
+		if u, ok := ce.(*ast.UnaryExpr); ok && u.Op == token.NOT {
+			neg = true
+			ce = ast.Unparen(u.X)
+		}
+		if c, ok := ce.(*ast.CallExpr); ok {
+			if site, ok := in.sites[in.off(c.Pos())]; ok && in.straightLine(site) {
+				if pre, res, ok := in.inline(site, c, inlDest{kind: "cond"}); ok {
+					var cond ast.Expr = res[0]
+					if neg {
+						cond = &ast.UnaryExpr{Op: token.NOT, X: cond}
+					}
+					x.Cond = cond
+					return &ast.BlockStmt{List: append(pre, x)}
+				}
+			}
+		}
+	}
 	var pre []ast.Stmt
 	if x.Init != nil {
 		if p, ok := in.simple(x.Init); ok && len(p) > 0 {
@@ -821,6 +843,28 @@ func replaceChild(parent ast.Node, old, repl ast.Expr) {
 			p.X = repl
 		}
 	}
+}
+
+// straightLine: the callee's body is a sequence of simple statements (no branches, loops or nested returns) that ends
+// in a return of one value.
+func (in *inliner) straightLine(site inlSite) bool {
+	body := site.callee.Decl.Body
+	if body == nil || len(body.List) == 0 || site.callee.Fn.Type().(*types.Signature).Results().Len() != 1 {
+		return false
+	}
+	for i, st := range body.List {
+		switch x := st.(type) {
+		case *ast.ReturnStmt:
+			if i != len(body.List)-1 || len(x.Results) != 1 {
+				return false
+			}
+		case *ast.AssignStmt, *ast.ExprStmt, *ast.DeclStmt, *ast.IncDecStmt:
+		default:
+			return false
+		}
+	}
+	_, ok := body.List[len(body.List)-1].(*ast.ReturnStmt)
+	return ok
 }
 
 // typedCallAt: the call expression at this offset in the typed tree of the file being rewritten.
@@ -1385,6 +1429,18 @@ func (in *inliner) inline(site inlSite, call *ast.CallExpr, dest inlDest) ([]ast
 			}
 		}
 		return out
+	}
+	if dest.kind == "cond" {
+		// the callee is straight-line code that ends in `return E`: its statements, then E itself where the call stood
+		n := len(decl.Body.List)
+		ret, ok := decl.Body.List[n-1].(*ast.ReturnStmt)
+		if !ok || len(ret.Results) != 1 {
+			in.n--
+			return nil, nil, false
+		}
+		out := append(append([]ast.Stmt{}, pre...), inner...)
+		out = append(out, decl.Body.List[:n-1]...)
+		return out, []ast.Expr{&ast.ParenExpr{X: ret.Results[0]}}, true
 	}
 	body := rewrite(decl.Body.List, true)
 	if dest.kind != "return" && nres > 0 && len(dst) > 0 {
